@@ -24,6 +24,12 @@ CLAIMED = {
  "C09": ("who-may-write table for the signer fields, must-lockset analysis of unsealCA, dominance of decrypt/load/ready-send by their preconditions, per-route sealed-gate dominance of primitive signing calls, structural check of the key-publication loop",
          "Signer family written only by reviewed writers with Signer stored last; unsealCA holds the mutex from entry to every return, tests already-unsealed before decrypting, loads only after successful decryption, signals readiness only after a successful load of a sealed server; injection requires a verified client chain; every primitive signing call reachable from a service route is dominated by the sealed gate; readiness 200 only when unsealed; publication of public keys follows every load. All paths, current source.",
          "Trusts sync.Mutex, go/ssa. Interleavings are covered only through lock discipline and single-store structure, not enumerated.", "DESIGN.md §3 C09"),
+ "C10": ("value identity between strength-checked and certified key on each issuing path; threshold extraction from the strength function's comparison facts; status-constant check on refusal edges; panic-construct scan of decoder functions with length/nil guard recognition and a reviewed table",
+         "Each of the six issuing paths certifies the key value that passed ValidatePublicKeyStrength on a dominating edge; the strength function's accepting returns are dominated by comparisons at least as strict as RSA>=2048/e>=65537, curve>224 bits, Ed25519; weak-key exits carry 4xx constants; every index/slice/assertion/panic/PEM dereference in the decoder functions is dominated by a recognised guard or listed in a reviewed table keyed by function and expression.",
+         "Does not cover panics inside third-party parsers (crypto/x509, x/crypto/ssh, go-jose, encoding/asn1): that part of the property (fuzzing) is outside static reach and stated as not decided.", "DESIGN.md §3 C10"),
+ "C11": ("return-case analysis of the IP verifier, role/provenance of refreshed identity and netblocks, structural encoder/decoder agreement (bit length, byte count, mask, family constant), bounded-copy obligations",
+         "The verifier accepts only on Contains(peer) with the peer parsed from the TCP address; the IP-certificate credential is granted only on helper success and never doubles as an ordinary certificate; refresh copies identity and netblocks from the authenticated certificate; encoder and decoder agree structurally and the decoder's copy is bounded.",
+         "The numerical iff over all prefixes/addresses (a value round trip) is not decided; net.IPNet.Contains/CIDRMask/asn1 are trusted.", "DESIGN.md §3 C11"),
  "C12": ("dominance of the token-minting calls by the conjunction of code/client/expiry/redirect/type facts, decision-structure classification of the client-authentication flag, shape check of the PKCE verifier, store-provenance of token fields",
          "Both minting calls of the token endpoint are dominated on all paths by the verified code, client authentication, client==code.sub, strict expiry, equal redirect_uri and the code type; the authentication flag is true only from PKCE (secret-less client) or a non-empty secret; the PKCE verifier compares against the challenge decrypted from the same code; token/code/userinfo fields have the stated provenance (field-store analysis).",
          "Trusts go-jose and JSON encoding. Field provenance is judged per store into the token structs in the current source.", "DESIGN.md §3 C12"),
